@@ -36,7 +36,8 @@ func NewPacketFactoryCopy() *PacketFactoryCopy {
 		},
 		payloadPool: &sync.Pool{
 			New: func() any {
-				buf := make([]byte, maxPayloadLen)
+				// room for the RTX original-sequence-number prefix in front of a full payload
+				buf := make([]byte, maxPayloadLen+rtxSsrcByteLength)
 
 				return &buf
 			},
